@@ -254,7 +254,7 @@ impl State {
                 if !self.rcv_cum_valid {
                     return;
                 }
-                let is_new = seq_diff(p.seq, self.rcv_cum) > 0 && !self.rcv.contains_key(&p.seq);
+                let is_new = seq_diff(p.seq, self.rcv_cum) > 0 && seq_diff(p.seq, self.rcv_cum) < 2000 && !self.rcv.contains_key(&p.seq);
                 if is_new {
                     // receive-buffer model: drop what does not fit
                     if let Some(m) = self.auto.rx_model {
@@ -265,7 +265,8 @@ impl State {
                         self.undrained += p.payload.len() as u64;
                     }
                     self.rcv.insert(p.seq, p.payload.len());
-                    while self.rcv.contains_key(&self.rcv_cum.wrapping_add(1)) {
+                    // keep only what is held out of order
+                    while self.rcv.remove(&self.rcv_cum.wrapping_add(1)).is_some() {
                         self.rcv_cum = self.rcv_cum.wrapping_add(1);
                     }
                 }
